@@ -10,7 +10,7 @@ from .. import px as P
 from .. import facts as F
 from ..tabeval import Evaluator, Opt, Stuck, Trie
 from . import serve_model as SM
-from .common import where, short, inherent_fn, impl_fn, aggregates
+from .common import where, short, inherent_fn, impl_fn, aggregates, boolish, helper_inline
 
 
 def find_builder(ctx):
@@ -26,21 +26,31 @@ def find_builder(ctx):
     adt = v[2]
     roles = {}
     a0 = ctx.facts.adts[adt]
-    bools = [f["name"] for f in a0["variants"][0]["fields"] if f["ty"] == "bool"]
+    bools = [f["name"] for f in a0["variants"][0]["fields"] if boolish(ctx, f["ty"])]
+    # the negotiation flag: the two-valued field that is the result of the crate's `should_gzip` call, or that is a constant
+    # tracking that result on every constructor path (`if should_gzip(..) { A } else { B }`); `*_inv` records the polarity
+    sgcalls = set()
     for o in outs:
-        for name, t in o.value[4]:
-            s = repr(t)
-            if isinstance(t, tuple) and t[0] == "call" and t[1].split("::")[-1] == "should_gzip":
-                roles["sg"] = name
-                roles["sg_term"] = t
-            elif "http::Method::HEAD" in s and name in bools:
-                roles["bn"] = name
-                roles["bn_term"] = t
-    if "sg" in roles and "bn" not in roles:
+        for t_, v_ in o.cons.known.items():
+            if isinstance(t_, tuple) and t_[0] == "call" and t_[1].split("::")[-1] == "should_gzip":
+                sgcalls.add(t_)
+    for name in bools:
+        vals = [(agg_get(o.value, name), o) for o in outs]
+        if all(isinstance(t, tuple) and t[0] == "call" and t[1].split("::")[-1] == "should_gzip" for t, _ in vals):
+            roles["sg"], roles["sg_term"], roles["sg_inv"] = name, vals[0][0], 0
+        elif len(sgcalls) == 1 and all(is_const(t) for t, _ in vals):
+            c = next(iter(sgcalls))
+            rel = {(o.cons.known.get(c), t[1]) for t, o in vals}
+            if rel == {(1, 1), (0, 0)}:
+                roles["sg"], roles["sg_term"], roles["sg_inv"] = name, c, 0
+            elif rel == {(1, 0), (0, 1)}:
+                roles["sg"], roles["sg_term"], roles["sg_inv"] = name, c, 1
+    if "sg" in roles:
         rest = [b for b in bools if b != roles["sg"]]
         if len(rest) == 1:
             roles["bn"] = rest[0]
             roles["bn_term"] = None
+            roles["bn_inv"] = 0      # fixed below from the constructor's table (head_no_writer)
     roles["ctor_outs"] = outs
     a = ctx.facts.adts[adt]
     for f in a["variants"][0]["fields"]:
@@ -79,6 +89,7 @@ def head_no_writer(ctx, rule):
     # BN == (method != HEAD): evaluate the constructor's rows for method in {GET, HEAD, POST}
     trie = Trie(B["ctor_outs"])
     badm = []
+    gots = {}
     for meth in ("GET", "HEAD", "POST"):
         def calls(name, args, term, meth=meth):
             last = name.split("::")[-1]
@@ -102,13 +113,17 @@ def head_no_writer(ctx, rule):
             ctx.violation(rule, rule + "|body-needed-unrecognised", "UNRECOGNISED: the body-needed flag cannot be evaluated (%s)" % e)
             badm = None
             break
-        if bool(got) != (meth != "HEAD"):
-            badm.append("%s -> body_needed=%s" % (meth, bool(got)))
+        gots[meth] = int(bool(got))
+    if badm is not None:
+        if gots == {"GET": 0, "HEAD": 1, "POST": 0}:
+            r["bn_inv"] = 1      # the flag is stored with the opposite polarity ("body omitted")
+        elif gots != {"GET": 1, "HEAD": 0, "POST": 1}:
+            badm = ["%s -> flag=%s" % kv for kv in sorted(gots.items())]
     if badm:
         ctx.violation(rule, rule + "|body-needed", "the builder's body-needed flag is not `request method != HEAD`: %s" % ", ".join(badm))
     elif badm is not None:
         ctx.ok(rule, "body_needed == (AsRequest::method(req) != Method::HEAD) for GET / HEAD / POST")
-    rows = [o for o in ctx.px(B["build"]) if o.kind == "return"]
+    rows = [o for o in ctx.px(B["build"], inline=helper_inline(ctx, own=(B["adt"],)), key="helpers") if o.kind == "return"]
     bnf = ("field", ("param", 1), r["bn"])
     n = 0
     by = {}
@@ -122,6 +137,7 @@ def head_no_writer(ctx, rule):
             continue
         n += 1
         has = is_agg(w) and w[3] == "Some"
+        v = v ^ r.get("bn_inv", 0)
         if bool(v) != has:
             ctx.violation(rule, "%s|writer|bn=%d" % (rule, v), "build() returns %s writer when body_needed is %s" % ("a" if has else "no", bool(v)))
         key = tuple(sorted((fmt_term(t), val) for t, val in o.cons.known.items() if t != bnf))
@@ -143,7 +159,7 @@ def coding_agreement(ctx):
     B = find_builder(ctx)
     r = B["roles"]
     G = gzip_ctor(ctx)
-    rows = [o for o in ctx.px(B["build"]) if o.kind == "return"]
+    rows = [o for o in ctx.px(B["build"], inline=helper_inline(ctx, own=(B["adt"],)), key="helpers") if o.kind == "return"]
     # R1: Vary on every path
     nv = 0
     for o in rows:
@@ -163,7 +179,7 @@ def coding_agreement(ctx):
     trie = Trie(rows)
     nok = 0
     for sg, lvl, bn in itertools.product((0, 1), (0, 1, 6, 9), (0, 1)):
-        ev = Evaluator({1: {r["sg"]: sg, r["level"]: lvl, r["bn"]: bn, r["chunk"]: 4096}})
+        ev = Evaluator({1: {r["sg"]: sg ^ r.get("sg_inv", 0), r["level"]: lvl, r["bn"]: bn ^ r.get("bn_inv", 0), r["chunk"]: 4096}})
         try:
             hits = trie.select(ev)
         except Stuck as e:
@@ -234,13 +250,16 @@ def coding_agreement(ctx):
         for fn in inherent_fn(ctx, B["adt"], setter):
             outs = [o for o in ctx.px(fn) if o.kind == "return"]
             v = outs[0].value if len(outs) == 1 else None
-            good = is_agg(v)
+            good = v is not None
             if good:
-                for name, t in v[4]:
+                pxx = P.PX(ctx.facts)
+                for fld in ctx.facts.adts[B["adt"]]["variants"][0]["fields"]:
+                    name = fld["name"]
+                    tt = pxx.project(None, v, ("f", name))      # (struct update syntax and `mut self` + assignment both work)
                     if name == field:
-                        good = good and t == ("param", 2)
+                        good = good and tt == ("param", 2)
                     else:
-                        good = good and t == ("field", ("param", 1), name)
+                        good = good and tt == ("field", ("param", 1), name)
             if good:
                 ctx.ok("C17.R3", "%s replaces only `%s`" % (setter, field))
             else:
